@@ -97,6 +97,30 @@ func c15Observe(e *c15Entry, idx int, deep bool, when string) error {
 	return nil
 }
 
+// c15Guarded is a caller-owned buffer whose windows were handed to NewExtendedKey.
+type c15Guarded struct {
+	buf     []byte
+	windows map[string][2]int
+	idx     int
+}
+
+func (g c15Guarded) check(when string) error {
+	in := func(i int) bool {
+		for _, w := range g.windows {
+			if i >= w[0] && i < w[1] {
+				return true
+			}
+		}
+		return false
+	}
+	for i, b := range g.buf {
+		if !in(i) && b != 0xC3 {
+			return fmt.Errorf("%s: byte %d of the caller's buffer behind key #%d's fields was overwritten (0x%02x): erasure reaches past the slices the key was given", when, i, g.idx, b)
+		}
+	}
+	return nil
+}
+
 func evalC15(c c15Case, o *Obs) error {
 	var pool []*c15Entry
 	find := func(k *hdkeychain.ExtendedKey) int {
@@ -109,6 +133,7 @@ func evalC15(c c15Case, o *Obs) error {
 	}
 	pick := func(a int) int { return ((a % len(pool)) + len(pool)) % len(pool) }
 	interesting := false
+	var guards []c15Guarded
 	for step, op := range c.Ops {
 		if len(pool) == 0 && op.Op != "newmaster" {
 			continue
@@ -151,9 +176,25 @@ func evalC15(c c15Case, o *Obs) error {
 			} else {
 				keyData = src.pubBytes()
 			}
-			ver := append([]byte{}, src.Version[:]...)
-			chain := append([]byte{}, src.Chain[:]...)
-			fp := append([]byte{}, src.ParentFP[:]...)
+			// the four fields are windows of one caller-owned buffer, separated by guard bytes; zeroing this key
+			// may clear the windows (they are its key material) but nothing else
+			big := make([]byte, 0, 4+len(keyData)+32+4+5*8)
+			guard := []byte{0xC3, 0xC3, 0xC3, 0xC3, 0xC3, 0xC3, 0xC3, 0xC3}
+			off := map[string][2]int{}
+			put := func(name string, b []byte) []byte {
+				big = append(big, guard...)
+				st := len(big)
+				big = append(big, b...)
+				off[name] = [2]int{st, len(big)}
+				return big[st:len(big)]
+			}
+			ver := put("ver", src.Version[:])
+			keyW := put("key", keyData)
+			chain := put("chain", src.Chain[:])
+			fp := put("fp", src.ParentFP[:])
+			big = append(big, guard...)
+			keyData = keyW
+			guards = append(guards, c15Guarded{buf: big, windows: off, idx: len(pool)})
 			k := hdkeychain.NewExtendedKey(ver, keyData, chain, fp, src.Depth, src.ChildNum, src.Priv != nil)
 			cp := *src
 			pool = append(pool, &c15Entry{k: k, r: &cp, origin: fmt.Sprintf("NewExtendedKey(copy of #%d)@%d", a, step), rel: []int{a}})
@@ -283,6 +324,11 @@ func evalC15(c c15Case, o *Obs) error {
 				continue
 			}
 			if err := c15Observe(e, i, deepAll, when); err != nil {
+				return err
+			}
+		}
+		for _, g := range guards {
+			if err := g.check(when); err != nil {
 				return err
 			}
 		}
